@@ -225,6 +225,29 @@ def apply_rules(text, rules):
             text = text[:j] + r["insert"] + text[j:]
             fired.append((r["name"], 1))
             continue
+        if "do_while" in r:
+            # `do { BODY } while (COND);` -> `{ _Bool dw_first = 1; while (dw_first || (COND)) <contract> { dw_first = 0; BODY } }`
+            # (same semantics, `continue` included: it re-evaluates COND in both forms). CBMC 6.11 has no contract syntax for do-while.
+            k = 0
+            m = re.search(r"\bdo\s*\{", text)
+            if m:
+                i = m.end() - 1
+                j = balanced(text, i)
+                t = re.match(r"\s*while\s*\((" + r["do_while"] + r")\)\s*;", text[j:], re.S)
+                if t:
+                    text = (text[:m.start()] + "{ _Bool dw_first = 1; while (dw_first || (" + t.group(1) + "))\n" + r["contract"] +
+                            "\n  { dw_first = 0; " + text[i + 1:j - 1] + " } }" + text[j + t.end():])
+                    k = 1
+            fired.append((r["name"], k))
+            if k < r.get("min", 0):
+                raise ExtractionDrift("must-fire rule %r fired %d < %d times" % (r["name"], k, r["min"]))
+            continue
+        if "require" in r:
+            # the text produced by the earlier (alternative) rules must contain the pattern: one of the alternatives has fired
+            if not re.search(r["require"], text, re.S):
+                raise ExtractionDrift("rule %r: none of the alternative rules fired" % r["name"])
+            fired.append((r["name"], 1))
+            continue
         if "forbid" in r:
             # nothing matching the pattern may survive the earlier rules (an unmapped construct): drift, not a guess
             if re.search(r["forbid"], text, re.S):
